@@ -24,6 +24,8 @@ PY
 testname="demo_$(echo "$name" | tr '-' '_')"
 feat=$(echo "$demo_cmd" | grep -o -- '--features[= ][^ ]*' | head -1)
 [ -z "$(echo "$demo_cmd" | grep -- '--no-default-features')" ] && ndf="" || ndf="--no-default-features"
+# a demonstration that only fails without debug assertions says so with --release
+echo "$demo_cmd" | grep -q -- '--release' && ndf="$ndf --release"
 demofile=demo.rs
 if [ -f "$src/demo.c" ]; then
   demofile=demo.c
